@@ -3,6 +3,7 @@ package engines
 import (
 	"fmt"
 	"strings"
+	"syscall"
 	"testing"
 	"time"
 
@@ -261,6 +262,18 @@ func agentParams(t *testing.T, tp *simrt.Tape, cfg simrt.Config, sc *agentScenar
 	chk := &agentCheck{out: out, prop: "C11"}
 	path := dagPath(d)
 	hung := ""
+	// fault "compaction_write_error": in a third of the lineages the disk is full when a run's record is
+	// compacted at its end (writing the compacted file fails). The run's record must survive that:
+	// a later retry or restart takes its parameters and outputs from it
+	if (ps.NRetries > 0 || ps.Restart) && chance(tp, 1, 3) {
+		cfg.FaultPlan = func(op *simrt.OpInfo) simrt.Fault {
+			if op.Kind != "write" || !strings.HasSuffix(op.Path, "_c.dat") || !tp.Chance(simrt.SFault, 1, 2) {
+				return simrt.Fault{}
+			}
+			op.Proc.W.CountFault("compaction_write_error")
+			return simrt.Fault{Kind: simrt.FErr, Errno: syscall.ENOSPC}
+		}
+	}
 	res := simrt.Run(t, cfg, func(w *simrt.World) {
 		cw = newCLIWorld(w, tp)
 		fsOf(w).PutFile(path, []byte(d.YAML()), 0o644)
@@ -285,6 +298,15 @@ func agentParams(t *testing.T, tp *simrt.Tape, cfg simrt.Config, sc *agentScenar
 			simrt.Sleep(time.Duration(pick(tp, 5, 1100)) * time.Millisecond)
 			rec, _ := persistedStatusOf(nil, cw, last)
 			if rec == nil {
+				ran := false
+				for _, r := range cw.truth.Runs {
+					if r.AgentPid == last.proc.Pid {
+						ran = true
+					}
+				}
+				if last.proc.Signaled == "" && ran {
+					chk.viol("run-record-lost", kinds[len(kinds)-1], "the %s process ended (exit %d) but no record of its run is left: a retry cannot get its parameters and outputs", kinds[len(kinds)-1], last.proc.ExitCode)
+				}
 				return
 			}
 			rp := cw.run(specs[r], nil, "retry", "--req="+rec.RequestID, path)
